@@ -1,4 +1,6 @@
 import PnaVerif.Model.Cli.Edit
+import PnaVerif.Model.Cli.Update
+import PnaVerif.Model.Cli.List
 /- Wire format of logical archives for the driver protocol (mirror of harness/src/cli.rs). -/
 namespace Pna.Cli.Wire
 open Pna Pna.Cli
@@ -123,6 +125,64 @@ def handleTransform (toks : List String) : String :=
     | some st, [kt, kpm, kx, ka], some kp, some a =>
       "ok " ++ itemsS (transform st (stripF ⟨kt == '1', kpm == '1', kx == '1', kp, ka == '1'⟩) a)
     | _, _, _, _ => "bad-op"
+  | _ => "bad-op"
+
+/-- `name:body,name:body,…` -/
+def uentries? (s : String) : Option (List UEntry) :=
+  if s == "." then some [] else
+    (s.splitOn ",").mapM fun t =>
+      match t.splitOn ":" with
+      | [n, b] => do let n ← ofHex n; let b ← ofHex b; pure ⟨n, b⟩
+      | _ => none
+
+def uentriesS (l : List UEntry) : String :=
+  if l.isEmpty then "." else ",".intercalate (l.map fun e => toHexW e.name ++ ":" ++ toHexW e.body)
+
+/-- `history append <archive> <targets>` | `history update <excl names> <need names> <archive> <targets>`
+    | `history delete <sel names> <archive>` -/
+def handleHistory (toks : List String) : String :=
+  match toks with
+  | ["append", a, ts] =>
+    match uentries? a, uentries? ts with
+    | some a, some ts => "ok " ++ uentriesS (appendOp a ts)
+    | _, _ => "bad-op"
+  | ["update", excl, need, a, ts] =>
+    match names? excl, names? need, uentries? a, uentries? ts with
+    | some excl, some need, some a, some ts =>
+      "ok " ++ uentriesS (updateOp (selOf excl) (fun e => need.contains e.name) a ts)
+    | _, _, _, _ => "bad-op"
+  | ["delete", sel, a] =>
+    match names? sel, uentries? a with
+    | some sel, some a => "ok " ++ uentriesS (deleteOp (selOf sel) a)
+    | _, _ => "bad-op"
+  | _ => "bad-op"
+
+def rows? (s : String) : Option (List (Bool × Row)) :=
+  if s == "." then some [] else
+    (s.splitOn ";").mapM fun t =>
+      match t.splitOn "," with
+      | [sf, n, k, tg, rs, cs] => do
+        let n ← ofHex n; let k ← k.toNat?; let tg ← ofHex tg; let rs ← optNat? rs; let cs ← cs.toNat?
+        pure (sf == "1", ⟨n, k, tg, rs, cs⟩)
+      | _ => none
+
+/-- `list <fmt> <solid> <classify> <sel names | *> <rows>` -/
+def handleList (toks : List String) : String :=
+  match toks with
+  | [fmt, solid, classify, sel, rows] =>
+    let sel? : Option (Bytes → Bool) := if sel == "*" then some (fun _ => true) else (names? sel).map selOf
+    match sel?, rows? rows with
+    | some sel, some rs =>
+      let all := listRows (solid == "1") (fun _ => true) rs
+      let shown := listRows (solid == "1") sel rs
+      if all.isEmpty then "ok -" else
+      if fmt == "plain" then "ok " ++ toHexW (plainOut (classify == "1") shown)
+      else if fmt == "tree" then "ok " ++ toHexW (treeOut (classify == "1") shown)
+      else if fmt == "jsonl" then
+        "ok " ++ (if shown.isEmpty then "." else ";".intercalate (shown.map fun r =>
+          s!"{toHexW r.name}|{toHex [kindChar r.kind]}|{(r.rawSize.getD 0)}|{r.compressedSize}"))
+      else "bad-op"
+    | _, _ => "bad-op"
   | _ => "bad-op"
 
 end Pna.Cli.Wire
